@@ -22,7 +22,8 @@ EXPLANATION = (
     "level agrees with the level/maxlevel arguments, the start node is guarded at level 1, _abort_at_level is `maxlevel is "
     "not None and level > maxlevel`, optional ints are never tested by truthiness where 0 is feasible; S4 filter_, stop, "
     "maxlevel are forwarded unchanged (ZigZag → LevelOrderGroup, recursion, constructor → __init → _iter); S5 a group is "
-    "yielded for every admitted non-empty level, independent of whether filter_ leaves it empty. Not decided: traversal "
+    "yielded for every admitted non-empty level, independent of whether filter_ leaves it empty. S6 every path through a per-node loop "
+    "decides filter_ for the admitted node and descends into it unless stop/maxlevel applies. Not decided: traversal "
     "order (C05) and behaviour for user callbacks with side effects."
 )
 ASSUMPTIONS = ["levels are integers; `_abort_at_level` is the only depth test", "filter_/stop are called with the node only"]
